@@ -222,7 +222,9 @@ fn to_f64_strategy() -> BoxedStrategy<DecToF> {
     });
     let halfway = (any::<u64>(), any::<bool>(), -1i64..=1, 0u32..30).prop_map(|(bits, neg, d, far)| {
         // midpoint between a finite positive double and its successor, +- one unit in a far digit
-        let b = bits & 0x7fef_ffff_ffff_ffff; // finite, positive
+        // finite, positive, any binade (exponent field 0..2046; MAX itself has no successor and falls back to lo)
+        let b = bits & 0x7fff_ffff_ffff_ffff;
+        let b = if b >> 52 == 0x7ff { b & 0x7fef_ffff_ffff_ffff } else { b };
         let lo = dec_of_f64_bits(b).unwrap();
         let hi = dec_of_f64_bits(b + 1).unwrap_or_else(|| lo.clone());
         let mid = lo.add(&hi).half();
